@@ -1,7 +1,7 @@
 (* C14 - TopoART: two-winner learning, edge counts and pruning keep all
    indices aligned.  Statements only; model in theories/Topo.v. *)
 From Coq Require Import List Bool Arith ZArith.
-From ART Require Import Num Vec Search Kernel BaseArt DualVig Topo Topo_proofs Fuzzy Topo_labels.
+From ART Require Import Num Vec Search Kernel BaseArt DualVig Topo Topo_proofs Fuzzy Topo_labels Topo_epochs.
 Import ListNotations.
 
 (* best and second-best winners are different categories (so the edge count never lands on the diagonal) *)
@@ -61,7 +61,17 @@ Theorem C14_fit_aligned :
     forall s X veto mode eps s' ls,
     topo_fit K Klow tau phi s X veto mode eps = Some (s', ls) -> X <> [] -> Aligned s'.
 Proof. exact @topo_fit_aligned. Qed.
+(* ... and with several epochs (fit(X, max_iter > 1)): pruning rounds of later epochs meet survivors that own no
+   sample at the moment; the alignment is preserved all the same *)
+Theorem C14_fit_several_epochs_aligned :
+  forall (N : Num) (K Klow : Kernel N) tau phi,
+    (forall a b : N, nleb a b = true \/ nleb b a = true) ->
+    (forall a b c : N, nleb a b = true -> nleb b c = true -> nleb a c = true) ->
+    forall s X iters veto mode eps s' ls,
+    topo_fit_iters K Klow tau phi s X iters veto mode eps = Some (s', ls) -> X <> [] -> Aligned s'.
+Proof. exact @topo_fit_iters_aligned. Qed.
 Print Assumptions C14_fit_aligned.
+Print Assumptions C14_fit_several_epochs_aligned.
 Print Assumptions C14_prune.
 Print Assumptions C14_prune_labels.
 
